@@ -139,6 +139,13 @@ class Path:
                 raise Abort()
             return
         if not b.v:
+            if (self.forced, b.f.uid) in self.ex._lenient:
+                # the solver's witness is an algebraic point that was rounded: keep the constraint in the
+                # path condition and go on with the approximate witness (the path is marked inexact)
+                self.exact = False
+                self.pc.append(b.f)
+                self.known[b.f.uid] = True
+                return
             # the witness violates the assumption: ask the solver for one that satisfies it (same prefix)
             raise AssumeFail(b.f, len(self.pc))
         self.pc.append(b.f)
@@ -315,6 +322,7 @@ class Explorer:
         self.sample_pc = None
         self._cert_cache = {}
         self._assume_tried = set()
+        self._lenient = set()
 
     def _check(self, s, *extra):
         t = time.time()
@@ -344,7 +352,11 @@ class Explorer:
                 core.CUR = None
                 key = (forced, e.f.uid)
                 if key in self._assume_tried:
-                    self.stats["aborted"] += 1
+                    if key in self._lenient:
+                        self.stats["aborted"] += 1
+                        continue
+                    self._lenient.add(key)
+                    work.append((forced, assign))
                     continue
                 self._assume_tried.add(key)
                 s = z3.Solver()
